@@ -427,13 +427,10 @@ int main(int argc, char **argv)
     std::string bound;
 
     // ================================================================= A: closed set() transition relation
-    std::vector<Shape> shapesA = {{1, 1}, {1, 3}, {3, 1}, {2, 2}, {2, 3}, {3, 2}, {1, 8}, {2, 4}, {3, 3}};
-    if (thorough) {
-        shapesA.push_back({1, 10});
-        shapesA.push_back({3, 4});
-        shapesA.push_back({4, 3});
-        shapesA.push_back({2, 6});
-    }
+    // (run twice: the small shapes first, the large closures last so that a deadline cuts the least important part)
+    auto closure_and_bfs = [&](const std::vector<Shape> &shapesA, const std::string &round) {
+    if (!go("A:set-closure" + round))
+        return;
     std::map<std::pair<int, int>, bool> closure_clean;
     {
         std::vector<long long> abase{0};
@@ -462,10 +459,10 @@ int main(int argc, char **argv)
             return m;
         };
         CaseSet cs;
-        cs.name = "A:set-closure";
+        cs.name = "A:set-closure" + round;
         cs.n = abase.back();
         cs.counter_names = CN;
-        cs.hang_s = 120;
+        cs.hang_s = 300;
         cs.desc = [=](long long s) {
             IModel m = model_of(s);
             return "every set(i,j,v) from the " + std::to_string(m.r) + "x" + std::to_string(m.c) + " state " + istr(m);
@@ -499,7 +496,7 @@ int main(int argc, char **argv)
             Shape sh = locate(bad, l);
             closure_clean[{sh.r, sh.c}] = false;
         }
-        bound += "A: full set() transition relation over {.,1,2}^(r*c) for";
+        bound += (bound.empty() ? "" : "; ") + std::string("A: full set() transition relation over {.,1,2}^(r*c) for");
         for (auto sh : shapesA)
             bound += " " + std::to_string(sh.r) + "x" + std::to_string(sh.c);
     }
@@ -509,13 +506,13 @@ int main(int argc, char **argv)
         std::string bfs_done;
         for (auto sh : shapesA) {
             int n = sh.r * sh.c;
-            if (n > 9 && !(thorough && n <= 12))
+            if (thorough ? n > 12 : n > 8) // quick: saturation up to 8 cells (3x3 closure is phase A); thorough: 9 cells, 12 if time allows
                 continue;
             if (!closure_clean[{sh.r, sh.c}] || past_deadline()) {
                 R.counters["B:bfs_skipped(shape had violations or deadline)"]++;
                 continue;
             }
-            if (n == 12 && now() - opts().t0 > 0.5 * opts().deadline_s) {
+            if (n == 12 && (!(sh.r == 3 && sh.c == 4) || now() - opts().t0 > 0.3 * opts().deadline_s)) {
                 R.counters["B:bfs_skipped(shape had violations or deadline)"]++;
                 continue;
             }
@@ -561,6 +558,8 @@ int main(int argc, char **argv)
         }
         bound += "; B: BFS saturation from the empty matrix for" + bfs_done;
     }
+    };
+    closure_and_bfs({{1, 1}, {1, 3}, {3, 1}, {2, 2}, {2, 3}, {3, 2}, {1, 8}, {3, 3}}, "");
 
     // ================================================================= C: from_coo, D: set() from every from_coo result
     struct CooSet {
@@ -568,9 +567,9 @@ int main(int argc, char **argv)
         std::vector<int> vals;
         int depth;
     };
-    std::vector<CooSet> coos = {{2, 2, 4, {0, 1, 2}, 2}, {2, 3, 4, {0, 1, 2}, 1}, {2, 2, 5, {1, -1}, 0}, {3, 3, 3, {0, 1, 2}, 0}};
+    std::vector<CooSet> coos = {{2, 2, 4, {0, 1, 2}, 2}, {2, 3, 3, {0, 1, 2}, 1}, {2, 2, 4, {1, -1}, 0}, {3, 3, 2, {0, 1, 2}, 0}};
     if (thorough)
-        coos = {{2, 2, 5, {0, 1, 2}, 3}, {2, 3, 4, {0, 1, 2}, 3}, {2, 2, 6, {1, -1}, 1}, {3, 3, 4, {0, 1, 2}, 1}, {3, 2, 4, {0, 1, -1}, 1}, {1, 4, 5, {0, 1, 2}, 2}};
+        coos = {{2, 2, 5, {0, 1, 2}, 2}, {2, 3, 4, {0, 1, 2}, 2}, {2, 2, 5, {1, -1}, 1}, {3, 3, 3, {0, 1, 2}, 1}, {3, 2, 4, {0, 1, -1}, 1}, {1, 4, 4, {0, 1, 2}, 2}};
     for (auto &co : coos) {
         if (!go("C:from_coo"))
             break;
@@ -625,6 +624,7 @@ int main(int argc, char **argv)
         };
         CaseSet cs;
         cs.name = "C:from_coo-" + tag;
+        cs.hang_s = 300;
         cs.n = base.back();
         cs.counter_names = CN;
         cs.desc = cdesc;
@@ -686,6 +686,7 @@ int main(int argc, char **argv)
             ds.name = "D:coo+set-" + tag + "-depth" + std::to_string(d);
             ds.n = (long long)front.size() * nops;
             ds.counter_names = CN;
+            ds.hang_s = 300;
             const std::vector<CSRMatrix> *F = &front;
             ds.desc = [F, nops, co, d](long long i) {
                 const CSRMatrix &S = (*F)[i / nops];
@@ -724,6 +725,8 @@ int main(int argc, char **argv)
 
     // ================================================================= E, F, G
     run_ops_phases(thorough, states_total, bound);
+    if (thorough)
+        closure_and_bfs({{2, 4}, {1, 10}, {3, 4}}, "-large");
 
     R.states = states_total;
     R.transitions = R.evaluations;
